@@ -116,12 +116,23 @@ const (
 // Statuses classifies the pairs of the rows under all readings; clean tells that every computed pair is
 // AllDefined or AllUndefined (then the substitute 2*max is well conditioned too)
 func Statuses(rows []string, opt Options) (st [][]PairStatus, clean bool) {
+	st, clean, _ = StatusesTol(rows, opt)
+	return
+}
+
+// StatusesTol also returns, per pair, the widening of the relative tolerance (Entry.RelExtra, twice: both
+// presentations carry the rounding), and in [i][i] the one of the pair that is the maximum
+func StatusesTol(rows []string, opt Options) (st [][]PairStatus, clean bool, extra [][]float64) {
 	n := len(rows)
 	st = make([][]PairStatus, n)
 	for i := range st {
 		st[i] = make([]PairStatus, n)
 	}
 	clean = true
+	extra = make([][]float64, n)
+	for i := range extra {
+		extra[i] = make([]float64, n)
+	}
 	refs := []*Ref{}
 	for _, rd := range Readings(rows, opt) {
 		refs = append(refs, Reference(rows, opt, rd))
@@ -132,6 +143,11 @@ func Statuses(rows []string, opt Options) (st [][]PairStatus, clean bool) {
 				continue
 			}
 			k0 := refs[0].E[i][j].Kind
+			for _, r := range refs {
+				if x := 2 * r.E[i][j].RelExtra; x > extra[i][j] {
+					extra[i][j] = x
+				}
+			}
 			s := NotJudged
 			switch k0 {
 			case Defined, Outside:
@@ -151,5 +167,12 @@ func Statuses(rows []string, opt Options) (st [][]PairStatus, clean bool) {
 			}
 		}
 	}
-	return st, clean
+	for i := 0; i < n; i++ {
+		for _, r := range refs {
+			if x := 2 * r.MaxExtra; x > extra[i][i] {
+				extra[i][i] = x
+			}
+		}
+	}
+	return st, clean, extra
 }
